@@ -49,7 +49,7 @@ func (f *Footer) Encode() ([]byte, error) {
 	if w.Error() != nil {
 		return nil, w.Error()
 	}
-	return buf.Bytes(), nil
+	return bytes.Clone(buf.Bytes()), nil
 }
 
 func (f *Footer) Decode(footer []byte) error {
